@@ -262,9 +262,8 @@ class Solver:
 
         display = solver_display(problem, params)
 
-        iterate = self.transform.create_transformed_iterate(x0, y0)
-
         try:
+            iterate = self.transform.create_transformed_iterate(x0, y0)
             iterate.check_eval()
             print_problem_stats(problem, iterate)
         except EvalError as e:
